@@ -131,6 +131,14 @@ CLAIMS = {
              'implementations, incl. two consecutive messages with suspending handlers on asyncio. msgpack values are '
              'realised at the C boundary (enumerated small domains).',
         ref='5 C02', technique='symbolic execution (CrossHair+z3) of real client+server joined end to end'),
+    'C15': dict(
+        text='The real listener loop of PubSubManager and AsyncPubSubManager consumes solver-chosen channel contents '
+             '(16 kinds of valid/invalid/foreign/own/garbage messages x 4 encodings x variants) with faults (raising or '
+             'cancelled application callback, raising server operation, raising and restarted listen iterator); a '
+             'sentinel after every item must be delivered exactly once, echoes must not be re-applied, foreign '
+             'acknowledgements must not complete local callbacks. The plan is the only symbolic input, so this is '
+             'solver-driven enumeration of the bounded plan space on the real code.',
+        ref='5 C15', technique='solver-driven enumeration (CrossHair+z3) of channel contents and fault positions on the real listener'),
 }
 
 PENDING = 'check not built yet in this tree (work in progress); no claim is made'
